@@ -58,10 +58,20 @@ theorem tie_PointCross : Crossing.pointCross = CrossFns.Point_PointCross := by
 /-- the hand model's state, field by field in the order of the Go struct -/
 def toGen (s : Crosser.St) : CrossFns.EdgeCrosser := ⟨s.a, s.b, s.aXb, s.aTangent, s.bTangent, s.c, s.acb⟩
 
+/-- `minTangentNorm2 = 0x1p-80` (finding D48 repair): below this squared length of `(a+b) × (b-a)` no tangents -/
+theorem k_minTangentNorm2 : Crossing.minTangentNorm2 = CrossFns.NewEdgeCrosser_k0 := f64_eq_of_bits (by decide +kernel)
+
+/-- `NewEdgeCrosser(a, b)`: struct literal `{a, b, aXb}` (tangents, c, acb zero), then
+    `if norm := (a+b) × (b-a); norm.Norm2() >= minTangentNorm2 { norm = norm.Normalize(); e.aTangent = …; e.bTangent = … }` -/
 theorem tie_NewEdgeCrosser (a b : V3) : toGen (Crosser.init a b) = CrossFns.NewEdgeCrosser a b := by
-  unfold Crosser.init CrossFns.NewEdgeCrosser
-  rw [tie_PointCross]
-  rfl
+  unfold Crosser.init Crossing.tangents CrossFns.NewEdgeCrosser
+  rw [k_minTangentNorm2]
+  dsimp only [toGen]
+  split
+  · rename_i h
+    exact Eq.trans rfl (if_pos h).symm
+  · rename_i h
+    exact Eq.trans rfl (if_neg h).symm
 
 /-- the tangents used by the stateless `Crossing.crossingSign` are the fields computed by `NewEdgeCrosser` -/
 theorem tie_tangents (a b : V3) :
